@@ -439,6 +439,20 @@ def generate(ctx):
     for nb in (0, 1, 4, 15, 17, 31, 33, 40, 64):
         ctx.run("bip39_encode", [rng.randrange(9), bytes(rng.randrange(256) for _ in range(nb))], "bad-size", trivial=(nb == 0))
 
+    # 1b. failing-input search driven by the lists themselves: a repeated word breaks the NoDup
+    # obligation; the sentence using its first index then fails to round-trip
+    for i in range(9):
+        wl = ref.wordlist(i)[0]
+        seen = {}
+        for k, w in enumerate(wl):
+            if w in seen:
+                for pos in (0, 5, -1):
+                    ctx.run("bip39_encode", [i, entropy_with_word(rng, 16, pos, seen[w])], "duplicate-word")
+            else:
+                seen[w] = k
+        if len(wl) != 2048:
+            ctx.run("bip39_encode", [i, bytes(16)], "list-length-%d" % len(wl))
+
     # 2. every word index at first / interior / last position
     classes = [("first", lambda nw: 0), ("interior", lambda nw: rng.randrange(1, nw - 1)), ("last", lambda nw: -1)]
     langs_for = {c: (list(range(9)) if not ctx.quick else [rng.randrange(9)]) for c, _ in classes}
